@@ -12,7 +12,9 @@ From Verif Require Import Base.Prelude Base.StrUtil Base.Index Base.NdArr Base.P
   Model.MapSpec Model.MapRun Model.SymBody Model.MapResume.
 
 Inductive variant := OldCode | NewCode.
-Inductive storage := FileSt | DictSt.
+(* ShmSt = shared_memory_dict: a DictArray whose elements are dumped by the submit phase (dump_in_subprocess) *)
+Inductive storage := FileSt | DictSt | ShmSt.
+Definition in_memory (st : storage) : bool := match st with FileSt => false | _ => true end.
 
 Definition path := str.
 (* what a complete file holds *)
@@ -161,14 +163,12 @@ Definition init_step (v : variant) (st : storage) (acc : result (em * list (str 
   : result (em * list (str * estore)) :=
   do xa <- acc;
   let '(y, arrs) := xa in
-  match st with
-  | FileSt =>
-      let y' := mkdir_p y [p_root; p_outputs; p_outdir (fst on)] in
-      Ok (y', arrs ++ [(fst on, map (fun i => cell_of (fst y') (p_elem (fst on) i)) (seq 0 (snd on)))])
-  | DictSt =>
+  if in_memory st then
       do cells <- load_dict v (fst y) (fst on) (snd on);
       Ok (y, arrs ++ [(fst on, cells)])
-  end.
+  else
+      let y' := mkdir_p y [p_root; p_outputs; p_outdir (fst on)] in
+      Ok (y', arrs ++ [(fst on, map (fun i => cell_of (fst y') (p_elem (fst on) i)) (seq 0 (snd on)))]).
 
 Definition init_store (v : variant) (st : storage) (c : ctx) (x : em) : result (em * rstore) :=
   do mo <- mapped_outputs c;
@@ -184,27 +184,47 @@ Definition action_events (v : variant) (st : storage) (x : em) (a : action) : em
   match a with
   | ACall f _ kw => emit x [Call (f ++ s "(" ++ join (s ",") (map (fun pv => fst pv ++ s "=" ++ canon (snd pv)) kw) ++ s ")")]
   | ADump o i val =>
-      match st with
-      | FileSt => dump_file v x [p_root; p_outputs; p_outdir o] (p_elem o i) (PVal val)
-      | DictSt => x
-      end
+      if in_memory st then x
+      else dump_file v x [p_root; p_outputs; p_outdir o] (p_elem o i) (PVal val)
   | ADumpSingle o val => dump_file v x [p_root; p_outputs] (p_single o) (PVal val)
   end.
 
 (* _maybe_persist_memory: DictArray.persist for every mapped output *)
 Definition persist_all (v : variant) (st : storage) (c : ctx) (rs : rstore) (x : em) : em :=
-  match st, mapped_outputs c with
-  | DictSt, Ok mo =>
+  match in_memory st, mapped_outputs c with
+  | true, Ok mo =>
       fold_left (fun acc on =>
                    dump_file v acc [p_root; p_outputs; p_outdir (fst on)] (p_dict (fst on))
                              (PDict (get_arr rs (fst on) (snd on)))) mo x
   | _, _ => x
   end.
 
+(* what a memory-based storage with dump_in_subprocess holds after the actions tr *)
+Definition replay_dumps (c : ctx) (tr : list action) (rs : rstore) : rstore :=
+  let sizes := match mapped_outputs c with Ok mo => mo | Err _ => [] end in
+  fold_left (fun r a => match a with
+                        | ADump o i v =>
+                            let n := match dict_get sizes o with Some n => n | None => 0 end in
+                            set_arr r o (upd (get_arr r o n) i (Some (Ok v)))
+                        | _ => r end) tr rs.
+
 Section WithBody.
   Variable body : mfunc -> env -> result (list val).
 
   Record outcome := { o_fs : fs; o_events : list event; o_result : result (list (str * val)) }.
+
+  (* the generations of run_map, keeping what the memory-based storages hold when a generation fails:
+     a DictArray receives its elements in _process_task, so the elements computed by the failing generation's
+     submit phase are not in it (a failure inside the process phase is approximated by "all of them are") *)
+  Fixpoint run_gens_track (c : ctx) (gens : list (list mfunc)) (ps : pstate) : res pstate * rstore :=
+    match gens with
+    | [] => (ROk ps, p_store ps)
+    | gen :: rest =>
+        match run_generation body c None ps gen with
+        | ROk ps' => run_gens_track c rest ps'
+        | RErr e tr => (RErr e tr, p_store ps)
+        end
+    end.
 
   (* Pipeline.map(inputs, run_folder, storage=st, cleanup=cleanup) on the file system s0 *)
   Definition run_fs (v : variant) (st : storage) (p : list mfunc) (inputs : env) (user : shape_dict)
@@ -223,9 +243,14 @@ Section WithBody.
             match init_store v st c x2 with
             | Err e => fail x2 e
             | Ok (x3, rs) =>
-                match map_run_sel body p inputs user None rs with
-                | RErr e tr => fail (fold_left (action_events v st) tr x3) e
-                | ROk ps =>
+                (* = map_run_sel body p inputs user None rs (no request: nothing to validate; shapes known) *)
+                match run_gens_track c (generations p) {| p_store := rs; p_out := []; p_tr := [] |} with
+                | (RErr e tr, rs_fail) =>
+                    (* run_map's `finally`: the memory-based storages are persisted also when the run fails;
+                       a shared_memory_dict already holds every element dumped so far *)
+                    let held := match st with ShmSt => replay_dumps c tr rs | _ => rs_fail end in
+                    fail (persist_all v st c held (fold_left (action_events v st) tr x3)) e
+                | (ROk ps, _) =>
                     let x4 := fold_left (action_events v st) (p_tr ps) x3 in
                     let x5 := persist_all v st c (p_store ps) x4 in
                     {| o_fs := fst x5; o_events := snd x5; o_result := Ok (p_out ps) |}
